@@ -291,7 +291,7 @@ static Family retry_family(const std::string &tier)
   f.reqs     = life_reqs();
   f.req_menu = { 0, 18 };
   f.replies  = { RK_SERVFAIL, RK_REFUSED, RK_NOTIMP, RK_FORMERR_NOOPT, RK_TC, RK_BADCOOKIE, RK_DATA };
-  f.faults   = { FS_SOCKET, FS_CONNECT, FS_SEND_REFUSED, FS_RECV_RESET, FS_SEND_EINTR, FS_RECV_EINTR };
+  f.faults   = { FS_SOCKET, FS_CONNECT, FS_SEND_REFUSED, FS_RECV_RESET, FS_SEND_EINTR, FS_RECV_EINTR, FS_SEND_ENOBUFS };
   f.setservers = { 2, 4 };
   f.evmask   = EVBIT(EV_REQ) | EVBIT(EV_REPLY) | EVBIT(EV_IO) | EVBIT(EV_TIMER) | EVBIT(EV_SETSERVERS) | EVBIT(EV_FAULT);
   f.policy_mask = (1u << ARES_VERIF_RAND_JITTER) | (1u << ARES_VERIF_RAND_ROTATE);
@@ -526,7 +526,7 @@ static Family failover_family(const std::string &tier)
   f.reqs.push_back(rq(2, "c.example.com", 28));
   f.req_menu   = { 0, 1, 2 };
   f.replies    = { RK_DATA, RK_SERVFAIL, RK_TC };
-  f.faults     = { FS_SEND_REFUSED, FS_CONNECT, FS_RECV_RESET };
+  f.faults     = { FS_SEND_REFUSED, FS_SEND_ENOBUFS, FS_CONNECT, FS_RECV_RESET };
   f.setservers = { 2, 3 };
   f.advances   = { 6000 };
   f.evmask     = EVBIT(EV_REQ) | EVBIT(EV_REPLY) | EVBIT(EV_TIMER) | EVBIT(EV_FAULT) | EVBIT(EV_SETSERVERS) | EVBIT(EV_ADVANCE) | EVBIT(EV_IO) | EVBIT(EV_TCP);
@@ -639,6 +639,10 @@ static Family addrs_family(const std::string &tier)
   gai("hosted.example.com", AF_INET6, 0, "");
   gai("10.1.2.3", AF_UNSPEC, 0, "");
   gai("fd00::9", AF_INET6, 0, "");
+  gai("10.1.2.3", AF_UNSPEC, ARES_AI_NUMERICSERV, "8080");   // literal with a service (the port's two octets differ)
+  gai("fd00::9", AF_INET6, ARES_AI_NUMERICSERV, "443");
+  gai("hosted.example.com", AF_UNSPEC, ARES_AI_NUMERICSERV, "8080");
+  gai("localhost", AF_UNSPEC, ARES_AI_NUMERICSERV, "8080");
   gai("localhost", AF_UNSPEC, 0, "");
   gai("x.localhost", AF_INET, 0, "");
   f.reqs.push_back(rq(7, "www.example.com", 1, 0, 0, AF_INET));
